@@ -4,6 +4,7 @@ package main
 
 import (
 	"fmt"
+	"regexp"
 	"go/token"
 	"go/types"
 	"sort"
@@ -457,8 +458,14 @@ func (fx *FnExec) builtin(st *State, b *ssa.Builtin, cc *ssa.CallCommon, args []
 		case *types.Array:
 			return []*Term{IntLit(u.Len())}
 		case *types.Map:
-			fx.c.DeclareFun("maplen", []Sort{SInt}, SInt)
-			fx.fail("len(map) unsupported")
+			// len(m): an uninterpreted non-negative function of the domain; 0 for the empty / nil map is not needed by any contract so far
+			dn, _, ds, _ := fx.mapHeapNames(u)
+			dom := Select(fx.heapGet(st, dn, ds), args[0])
+			name := "maplen_" + sanitize(string(dom.S))
+			fx.c.DeclareFun(name, []Sort{dom.S}, SInt)
+			r := App(name, SInt, dom)
+			fx.c.Assume(Implies(st.guard, Ge(r, IntLit(0))))
+			return []*Term{r}
 		case *types.Pointer:
 			if a, ok := u.Elem().Underlying().(*types.Array); ok {
 				return []*Term{IntLit(a.Len())}
@@ -1000,7 +1007,7 @@ func (fx *FnExec) funcMods(fn *ssa.Function, ms *modSet, depth int) {
 	if con := fx.e.cons[fn]; con != nil && !con.Inline {
 		env := &SpecEnv{fx: fx, pkg: con.Pkg, vars: map[string]specVal{}, st: fx.entry, where: "assigns of " + fn.Name()}
 		for _, p := range fn.Params {
-			env.vars[p.Name()] = specVal{fx.c.Const("modp_"+p.Name(), fx.e.sortOf(p.Type())), p.Type()}
+			env.vars[p.Name()] = specVal{fx.c.Const("modp_"+sanitize(fn.Name())+"_"+p.Name()+"_"+sanitize(string(fx.e.sortOf(p.Type()))), fx.e.sortOf(p.Type())), p.Type()}
 		}
 		for _, a := range con.Common.Assigns {
 			// a captured variable of the callee: the corresponding heap-allocated local of this function
@@ -1202,7 +1209,71 @@ func (fx *FnExec) escapes(a *ssa.Alloc) bool {
 
 // opaqueCall: nothing is known about the callee: every heap location may
 // change except objects private to this activation; results are unconstrained.
+// observerCallee: a /repo method with an observer name; its heap effects are bounded
+// by the frame obligations of the static check observer-frames (C14): only the
+// cache fields Typ/Successors and ID fields of existing objects may change.
+func observerCallee(name string) bool {
+	if !strings.Contains(name, modPath) {
+		return false
+	}
+	i := strings.LastIndex(name, ".")
+	if i < 0 {
+		return false
+	}
+	return observerNames[name[i+1:]]
+}
+
+var idFieldRe = regexp.MustCompile(`^F_.*_(Typ|Successors|LocalID|GlobalID|MetadataID)$`)
+
+func (fx *FnExec) observerHavoc(st *State) {
+	var names []string
+	for k := range st.heap {
+		names = append(names, k)
+	}
+	sort.Strings(names)
+	keep := map[string]bool{}
+	if r := fx.root(); r.con != nil {
+		for _, g := range r.con.Keeps {
+			keep["G_"+g] = true
+			if sf := fx.e.findSpec(r.con.Pkg, g); sf != nil && sf.Ghost {
+				if rt, err := fx.e.resolveType(sf.Pkg, sf.Ret); err == nil {
+					so := ArrSort(SInt, fx.e.sortOf(rt))
+					st.heap["G_"+g] = fx.heapGet(st, "G_"+g, so)
+				}
+			}
+			fx.trusted("assumption (keeps): calls without a contract made by " + r.fn.Name() + " do not change the ghost state " + g)
+		}
+	}
+	for _, k := range names {
+		old := st.heap[k]
+		switch {
+		case idFieldRe.MatchString(k):
+			st.heap[k] = fx.c.Fresh("obs_"+k, old.S)
+		case strings.HasPrefix(k, "G_") && !keep[k] && !strings.HasPrefix(k, "G_visited"):
+			st.heap[k] = fx.c.Fresh("obs_"+k, old.S)
+		}
+	}
+	// cache / ID components not read so far must not be identified with their earlier value either
+	st.obsEpoch++
+	oldA := fx.heapGet(st, "alloc", SInt)
+	newA := fx.c.Fresh("alloc", SInt)
+	st.heap["alloc"] = newA
+	fx.c.Assume(Implies(st.guard, Ge(newA, oldA)))
+}
+
 func (fx *FnExec) opaqueCall(st *State, sig *types.Signature, name string) []*Term {
+	if observerCallee(name) {
+		fx.trusted("observer call " + name + ": may only fill the caches Typ/Successors and write ID fields (frame obligations of the static check observer-frames, C14); results unconstrained; assumed to return normally")
+		fx.observerHavoc(st)
+		var res []*Term
+		for i := 0; i < sig.Results().Len(); i++ {
+			rt := sig.Results().At(i).Type()
+			v := fx.c.Fresh("obs_res", fx.e.sortOf(rt))
+			fx.assumeType(st, v, rt)
+			res = append(res, v)
+		}
+		return res
+	}
 	fx.trusted("opaque call " + name + ": unconstrained results and heap effects; assumed to return normally")
 	fx.havocHeap(st)
 	var res []*Term
@@ -1227,14 +1298,31 @@ func (fx *FnExec) havocHeap(st *State) {
 	sort.Slice(privs, func(i, j int) bool { return privs[i].String() < privs[j].String() })
 	fx.c.nfresh++
 	epoch := fmt.Sprintf("e%d", fx.c.nfresh)
+	if r := fx.root(); r.con != nil {
+		for _, g := range r.con.Keeps {
+			if sf := fx.e.findSpec(r.con.Pkg, g); sf != nil && sf.Ghost {
+				if rt, err := fx.e.resolveType(sf.Pkg, sf.Ret); err == nil {
+					so := ArrSort(SInt, fx.e.sortOf(rt))
+					st.heap["G_"+g] = fx.heapGet(st, "G_"+g, so)
+				}
+			}
+		}
+	}
 	var names []string
 	for k := range st.heap {
 		names = append(names, k)
 	}
 	sort.Strings(names)
 	oldA := fx.heapGet(st, "alloc", SInt)
+	keep := map[string]bool{}
+	if r := fx.root(); r.con != nil {
+		for _, g := range r.con.Keeps {
+			keep["G_"+g] = true
+			fx.trusted("assumption (keeps): calls without a contract made by " + r.fn.Name() + " do not change the ghost state " + g)
+		}
+	}
 	for _, k := range names {
-		if k == "alloc" {
+		if k == "alloc" || keep[k] {
 			continue
 		}
 		old := st.heap[k]
